@@ -97,6 +97,14 @@ CLAIMS.update({
         design='§6 C17'),
 })
 
+CLAIMS.update({
+    'C16': dict(
+        text='Lean 4 theorem about an abstract protocol of the library: lazily initialised cells (Uninit/Running/Init) holding data-free profile values, calls through the static API (which first force the cell), fresh or long-lived instances, arguments as borrowed/owned/Cow: for EVERY interleaving of initialisation steps and calls of any number of threads and every prior history, a completed call returns the pure function of its arguments; the API flavours and argument forms agree. The runtime part the model cannot exhibit (memory model, std::sync::Once) is explored: fresh processes in which 16 threads race the very first static calls, every input through all {fresh, long-lived, static} x {&str, String, Cow} combinations three times in shuffled order, all compared with the model; plus structural checks on every run (size_of of the four profiles and two classes is 0; no static mut / Cell / atomics / thread_local / Mutex / unsafe in the crates\' src).',
+        note='Partial by nature: proof of the abstract protocol + exploration of real schedules. Trusted: that the Rust operations read no state beyond their arguments is established by the structural scan and the behavioural comparison, not by proof.',
+        technique='Lean 4 proof by induction on executions of an abstract lazy-initialisation protocol + schedule/history exploration against the model',
+        design='§6 C16'),
+})
+
 NOT_YET = {}
 
 
